@@ -270,8 +270,18 @@ type world struct {
 	// drop the cache of) a directory on the open file's path (stratum longfd only)
 	ancFlush bool
 	fdPath   []string // components of the file being written
-	fdNode   *node
-	atFresh  []byte
+	// fault injection (stratum fault): which call kind fails, after how many
+	// calls, whether it fired during the operation just executed, and how many fired
+	faultKind                             string
+	faultCount                            int
+	faultFired                            bool
+	faultsFired                           int
+	faultedOps                            int
+	faultShape, faultPath, lastResultPath string
+	faultCid                              cid.Cid
+	faultFired2                           bool // the armed fault fired (kept until the post-checks of the fault step are done)
+	fdNode                                *node
+	atFresh                               []byte
 	// features of the listed stale-handle finding, measured per session:
 	cleanedDepth int  // depth of the shallowest on-path directory whose cache was dropped while the fd was open (-1 none)
 	freshLookup  bool // afterwards a path-based operation resolved an on-path entry below that directory
@@ -314,12 +324,57 @@ func (w *world) emptyFile() ipld.Node {
 	return nd
 }
 
+// faultDS is the DAG service handed to MFS. When armed (stratum fault only) it
+// fails one Get or one Add call with a non-not-found error; everything else is
+// forwarded. The read-back oracle never goes through it.
+type faultDS struct {
+	ipld.DAGService
+	w *world
+}
+
+var errInjected = errors.New("injected DAG service fault")
+
+func (f *faultDS) Get(ctx context.Context, c cid.Cid) (ipld.Node, error) {
+	w := f.w
+	if w.faultCid.Defined() && w.faultCid.Equals(c) {
+		return nil, errInjected // the node stays unreadable until the operation is over
+	}
+	if w.faultKind == "get" {
+		w.faultCount--
+		if w.faultCount == 0 {
+			w.faultKind, w.faultFired, w.faultFired2, w.faultCid = "", true, true, c
+			return nil, errInjected
+		}
+	}
+	return f.DAGService.Get(ctx, c)
+}
+
+func (f *faultDS) Add(ctx context.Context, nd ipld.Node) error {
+	w := f.w
+	if w.faultKind == "add" {
+		w.faultCount--
+		if w.faultCount == 0 {
+			w.faultKind, w.faultFired = "", true
+			return errInjected
+		}
+	}
+	return f.DAGService.Add(ctx, nd)
+}
+
 // fail records a violation. Two input/observation shapes get their own narrow
 // class (they are listed findings of other components that surface through
 // MFS); everything else keeps the class computed by the oracle clause.
 func (w *world) fail(class, clause, expected, observed string) {
 	if w.cfg.maxLinks > 0 && strings.Contains(observed, "cannot add child: maxLinks reached") && w.overfullDir(w.root) {
 		class = "hamt-maxlinks/update-under-sharded-dir-fails"
+	}
+	// Listed finding of the fault stratum: Directory.AddChild / mkdirWithOpts
+	// treat ANY error of the lookup of the final name as "absent". Shape: a Get
+	// fault fired during Create/Mkdir whose final component exists in the model,
+	// the operation returned nil, and the divergence is at that path.
+	if w.faultShape != "" && w.faultFired2 && strings.Contains(expected+" "+observed+" "+w.lastResultPath, w.faultPath) &&
+		(strings.HasPrefix(class, "tree/") || strings.HasPrefix(class, "dag/") || strings.HasSuffix(class, "/result/want-exists/got-ok")) {
+		class = "fault-get/" + w.faultShape + "-replaces-unreadable-entry"
 	}
 	w.k.Fail(class, clause, expected, observed)
 }
@@ -360,13 +415,14 @@ func (w *world) guard(where string, fn func()) bool {
 func main() { vlib.Run("C19", run) }
 
 func run(c *vlib.Ctx) {
-	c.Rule("histories of 6-30 ops {Mkdir(+-parents,+-flush,+-mode/mtime,+-trailing slash), create(PutNode empty), cp-file(PutNode of an existing file node), fd session(truncate/seek-start/write/write, +-fd.Flush, +-Sync flag, 1/4 of them with other operations run while the descriptor is open), Mv(file|dir -> new name | existing file | existing dir +-trailing slash | itself | random), Unlink(+-parent flush), Chmod, Touch, FlushPath(any path), Root.Flush, FlushMemFree, reload(NewRoot from the flushed root node through a fresh DAG service), Lookup, ListNames, fd read} over names {a,b,x,f} depth<=3 (stratum wide: n0..n9 depth<=2) x roots {HAMTShardingSize 0/80/120/200 (shards from 3-4 entries), fanout 8/16/default, CIDv0/v1(raw leaves), default/size-8/size-32 chunker} x observation density {0,30,100}% full-tree comparisons. Directory moves into their own subtree are never generated. Strata clean/wide avoid the triggers of all listed findings; each finding has its own stratum that allows its trigger and nothing else new: trigger (Mv between distinct equally named directories with the same leaf; /a/x,/b/x,/x/x pre-created), maxlinks (MaxLinks 2/3/5), rawstat (CIDv1: Chmod/Touch on a raw-leaf file, later grown), longfd (a directory on the open file's path is flushed while the descriptor is open). distinct = FNV of config + op list; non-trivial = the history had a successful Mv that was a directory move or replaced a file or went into an existing directory, a successful fd write session, an expected failure after which the whole tree was verified unchanged, and a DAG read-back after a flush that compared at least one file's bytes")
+	c.Rule("histories of 6-30 ops {Mkdir(+-parents,+-flush,+-mode/mtime,+-trailing slash), create(PutNode empty), cp-file(PutNode of an existing file node), fd session(truncate/seek-start/write/write, +-fd.Flush, +-Sync flag, 1/4 of them with other operations run while the descriptor is open), Mv(file|dir -> new name | existing file | existing dir +-trailing slash | itself | random), Unlink(+-parent flush), Chmod, Touch, FlushPath(any path), Root.Flush, FlushMemFree, reload(NewRoot from the flushed root node through a fresh DAG service), Lookup, ListNames, fd read} over names {a,b,x,f} depth<=3 (stratum wide: n0..n9 depth<=2) x roots {HAMTShardingSize 0/80/120/200 (shards from 3-4 entries), fanout 8/16/default, CIDv0/v1(raw leaves), default/size-8/size-32 chunker} x observation density {0,30,100}% full-tree comparisons. Directory moves into their own subtree are never generated. Strata clean/wide avoid the triggers of all listed findings; each finding has its own stratum that allows its trigger and nothing else new: trigger (Mv between distinct equally named directories with the same leaf; /a/x,/b/x,/x/x pre-created), maxlinks (MaxLinks 2/3/5), rawstat (CIDv1: Chmod/Touch on a raw-leaf file, later grown), longfd (a directory on the open file's path is flushed while the descriptor is open). Stratum fault: the DAG service handed to MFS fails one Get (Mkdir -p/Lookup/ListNames/Create right after the caches were dropped by a root flush or reload) or one Add (FlushPath/Root.Flush/FlushMemFree); a failed operation must leave the tree unchanged, a nil result must have its effect and the flushed DAG must read back through a healthy service. distinct = FNV of config + op list; non-trivial = the history had a successful Mv that was a directory move or replaced a file or went into an existing directory, a successful fd write session, an expected failure after which the whole tree was verified unchanged, and a DAG read-back after a flush that compared at least one file's bytes")
 	c.Cases("clean", c.N(2400, 16000), func(k *vlib.Case) { history(k, "clean") })
 	c.Cases("wide", c.N(500, 3000), func(k *vlib.Case) { history(k, "wide") })
 	c.Cases("maxlinks", c.N(400, 2000), func(k *vlib.Case) { history(k, "maxlinks") })
 	c.Cases("rawstat", c.N(400, 2000), func(k *vlib.Case) { history(k, "rawstat") })
 	c.Cases("trigger", c.N(400, 2000), func(k *vlib.Case) { history(k, "trigger") })
 	c.Cases("longfd", c.N(400, 2000), func(k *vlib.Case) { history(k, "longfd") })
+	c.Cases("fault", c.N(600, 3000), func(k *vlib.Case) { history(k, "fault") })
 }
 
 func history(k *vlib.Case, stratum string) {
@@ -400,7 +456,7 @@ func history(k *vlib.Case, stratum string) {
 	k.Logf("config stratum=%s maxLinks=%d fanout=%d shardSize=%d cidV1=%v chunk=%d obsPct=%d", stratum, w.cfg.maxLinks, w.cfg.fanout, w.cfg.shardSize, w.cfg.cidV1, w.cfg.chunk, w.cfg.obsPct)
 
 	w.bs = bstore.NewBlockstore(dssync.MutexWrap(ds.NewMapDatastore()))
-	w.dserv = w.readService()
+	w.dserv = &faultDS{DAGService: w.readService(), w: w}
 	rt, err := mfs.NewEmptyRoot(w.ctx, w.dserv, w.pub, nil, w.rootOpts()...)
 	if err != nil {
 		panic(err)
@@ -439,6 +495,8 @@ func history(k *vlib.Case, stratum string) {
 	c.Count("expected_failures_verified_unchanged", int64(w.failedOps))
 	c.Count("republish_calls", w.pubs.Load())
 	c.Count("ops_run_while_fd_open", int64(w.longSessions))
+	c.Count("fault_ops_armed", int64(w.faultedOps))
+	c.Count("faults_fired", int64(w.faultsFired))
 }
 
 // ---------------------------------------------------------------- generators
@@ -511,6 +569,10 @@ func (w *world) step(stratum string) {
 	x := r.Intn(100)
 	if stratum == "trigger" && x < 40 {
 		x = 30 // Mv
+	}
+	if stratum == "fault" && x < 50 {
+		w.faultStep()
+		return
 	}
 	if stratum == "longfd" && x < 35 {
 		if p, ok := w.someFile(); ok {
@@ -591,6 +653,100 @@ func (w *world) step(stratum string) {
 	}
 }
 
+// faultStep (stratum fault): optionally drop MFS's caches (flush of the root or
+// reload), arm one failing Get or Add, run one operation, then compare the whole
+// visible tree and flush + read back through the healthy service. A failed
+// operation must have changed nothing; a nil result must have its full effect
+// and a flush that returned nil must be readable and equal to the model.
+func (w *world) faultStep() {
+	r := w.r
+	switch r.Intn(10) {
+	case 0, 1, 2, 3:
+		w.opFlushPath("/")
+	case 4, 5, 6:
+		w.opReload()
+	}
+	if w.k.Failed() || w.k.C.Aborted() {
+		return
+	}
+	dirs, files := w.allPaths()
+	deep := func() string { // something below an existing directory
+		if len(dirs) > 0 {
+			return vlib.Pick(r, dirs) + "/" + vlib.Pick(r, w.names)
+		}
+		return "/" + vlib.Pick(r, w.names) + "/" + vlib.Pick(r, w.names)
+	}
+	kind := "get"
+	if r.Chance(2, 5) {
+		kind = "add"
+	}
+	n := r.Range(1, 3)
+	w.k.Logf("ArmFault %s call #%d", kind, n)
+	w.faultFired = false
+	w.faultedOps++
+	arm := func() { w.faultKind, w.faultCount = kind, n }
+	if kind == "add" {
+		// make sure some nested directory has a node that is not stored yet
+		w.opCreate(deep())
+		if w.k.Failed() || w.k.C.Aborted() {
+			return
+		}
+		arm()
+		if r.Chance(1, 3) {
+			w.opRootFlush(r.Bool())
+		} else if len(dirs) > 0 && r.Bool() {
+			w.opFlushPath(vlib.Pick(r, dirs))
+		} else {
+			w.opFlushPath("/")
+		}
+	} else {
+		switch r.Intn(6) {
+		case 0, 1, 2:
+			p := deep()
+			if _, st := w.walk(split(p)); st == wFound {
+				w.faultShape, w.faultPath, w.lastResultPath = "mkdir", p, p
+			}
+			arm()
+			w.opMkdir(p, r.Chance(4, 5), r.Chance(1, 4), 0, time.Time{})
+		case 3:
+			p := deep()
+			if len(files)+len(dirs) > 0 && r.Bool() {
+				p = vlib.Pick(r, append(append([]string{}, dirs...), files...))
+			}
+			arm()
+			w.opLookup(p)
+		case 4:
+			p := "/"
+			if len(dirs) > 0 {
+				p = vlib.Pick(r, dirs)
+			}
+			arm()
+			w.opList(p)
+		default:
+			p := deep()
+			if _, st := w.walk(split(p)); st == wFound {
+				w.faultShape, w.faultPath, w.lastResultPath = "create", p, p
+			}
+			arm()
+			w.opCreate(p)
+		}
+	}
+	w.faultKind, w.faultCid = "", cid.Undef
+	if w.faultFired {
+		w.faultsFired++
+	}
+	w.faultFired = false
+	defer func() { w.faultShape, w.faultPath, w.lastResultPath, w.faultFired2 = "", "", "", false }()
+	if w.k.Failed() || w.k.C.Aborted() {
+		return
+	}
+	w.lastOp = "faulted-op"
+	w.checkTree("after-faulted-op")
+	if !w.k.Failed() {
+		w.opFlushPath("/")
+	}
+}
+
 func (w *world) genMv() {
 	r := w.r
 	dirs, files := w.allPaths()
@@ -645,6 +801,12 @@ func (w *world) genMv() {
 // result compares an outcome with the expectation. It returns true when the
 // operation succeeded (model must apply the effect).
 func (w *world) result(op string, e expect, err error, features string) (succeeded bool, good bool) {
+	// an injected fault that fired may make any operation fail; it then has to
+	// leave the tree unchanged like every other failed operation
+	w.faultKind, w.faultCid = "", cid.Undef
+	if w.faultFired && err != nil {
+		return false, true
+	}
 	if !e.admits(err) {
 		obs := "ok"
 		if err != nil {
@@ -1571,6 +1733,11 @@ func (w *world) opRootFlush(memFree bool) {
 	}) {
 		return
 	}
+	w.faultKind, w.faultCid = "", cid.Undef
+	if err != nil && w.faultFired {
+		w.afterFailure("rootflush")
+		return
+	}
 	if err != nil {
 		w.fail("rootflush/error", "Root.Flush succeeds", "nil", err.Error())
 		return
@@ -1601,7 +1768,7 @@ func (w *world) opReload() {
 	if !w.guard("NewRoot", func() {
 		w.rt.Close()
 		// the reopened root reads through a fresh DAG service: only persisted blocks are visible
-		w.dserv = w.readService()
+		w.dserv = &faultDS{DAGService: w.readService(), w: w}
 		nrt, err = mfs.NewRoot(w.ctx, w.dserv, pn, w.pub, nil, w.rootOpts()...)
 	}) {
 		return
